@@ -73,7 +73,7 @@ def run(ctx):
     for pi in range(nproj):  # WRAPPED
         try:
             cfg = CONFIGS[(pi * ctx.nshards + ctx.shard) % len(CONFIGS)]
-            sc = LogixScenario(rng, size=rng.choice(["small", "small", "medium", "medium", "large"]), config=cfg)
+            sc = LogixScenario(rng, size=rng.choice(["small", "small", "medium", "medium", "large", "fixture"]), config=cfg)
             res.count("projects")
             if not sc.ok():
                 res.ev()
@@ -178,12 +178,19 @@ def run(ctx):
                     frags = [(j, e) for j, e in enumerate(journal) if not used[j] and e["kind"] == "write_frag" and e["tag"] == r.tag.full_name
                              and lo <= e["offset"] < lo + total and e["total"] == total]
                     pos, chain = lo, []
-                    for j, e in frags:
-                        if e["offset"] == pos:
-                            chain.append(j)
-                            pos += e["len"]
+                    # a complete tiling may be interleaved with the remains of another (refused) transfer of the same tag
+                    for si, (sj, se) in enumerate(frags):
+                        if se["offset"] != lo:
+                            continue
+                        pos, chain = lo + se["len"], [sj]
+                        for j, e in frags[si + 1:]:
                             if pos == lo + total:
                                 break
+                            if e["offset"] == pos:
+                                chain.append(j)
+                                pos += e["len"]
+                        if pos == lo + total:
+                            break
                     if pos == lo + total and chain:
                         for j in chain:
                             used[j] = True
